@@ -59,11 +59,13 @@ def ctx(eng, pclasses, kind, **members):
     """a parse-tree context of class ModelicaParser.<kind>Context.  members: name -> value; callables are wrapped so that
     ctx.name() returns value (lists returned as lists); names starting with '=' are plain attributes (ANTLR labels)."""
     o = VObj(pclasses.sym_getattr(eng, kind + "Context"))
+    o.fields["parentCtx"] = None          # ANTLR sets it; None for a context the harness does not nest
     for k, v in members.items():
         if k.startswith("label_"):
             o.fields[k[6:]] = v
         else:
-            o.fields[k] = stub((lambda val: (lambda eng, *a: val))(v))
+            # ANTLR accessor: ctx.rule() is the list of children of that rule (or the only child), ctx.rule(i) the i-th
+            o.fields[k] = stub((lambda val: (lambda eng, *a: val.items[a[0]] if a and isinstance(val, VList) and isinstance(a[0], int) else val))(v))
     return o
 
 
